@@ -11,7 +11,7 @@ SPEC = dict(
         "under -race (real 1 ms ticker) only schedule-independent clauses are asserted: exactly-once, latest value, removed never fires, Drain hands over each pending task once",
     ],
     runs=[
-        dict(pkg="./lib/collection", run="^TestVerifC10(Systematic|Random)$", timeout=240, timeout_thorough=3000),
+        dict(pkg="./lib/collection", run="^TestVerifC10(Systematic|Random|LongHistory)$", timeout=240, timeout_thorough=3000),
         dict(pkg="./lib/collection", run="^TestVerifC10Race$", race=True, timeout=300, timeout_thorough=3000),
     ],
 )
